@@ -11,6 +11,7 @@ from props import _design
 
 TITLE = "exhausted IterateSATGen = valid set"
 LEVEL = "proof"
+DOMAINS = ['Design']
 STRAT = "IterateSATGen"
 
 
